@@ -170,6 +170,10 @@ impl Scenario for Static {
         } else {
             gen_ws(&mut rng, &o)
         };
+        if self.prop == "C14" && self.variant == "venv" && rng.chance(450) {
+            // the virtualenv of another interpreter: other version, PyPy, the Windows layout
+            spec.extra.push(("@venv-layout".to_string(), rng.pick(&super::ws::VENV_LAYOUTS).to_string()));
+        }
         if self.prop == "C05" {
             // a parameterless probe test at the end of every test file: completion inside its
             // parentheses offers every visible fixture
@@ -373,7 +377,7 @@ fn collect(prop: &str, db: &std::sync::Arc<crate::fixtures::FixtureDatabase>, ro
             if !r.cached.contains(file) {
                 continue;
             }
-            let abs = root.join(file);
+            let abs = root.join(spec.disk_rel(file));
             let lines: Vec<&str> = rd.text.lines().collect();
             for t in &rd.toks {
                 if t.kind != TokKind::Def {
@@ -405,12 +409,13 @@ fn collect(prop: &str, db: &std::sync::Arc<crate::fixtures::FixtureDatabase>, ro
     }
     if matches!(prop, "C14" | "C05") {
         for f in &r.cached {
-            let av = db.get_available_fixtures(&root.join(f));
+            let av = db.get_available_fixtures(&root.join(spec.disk_rel(f)));
             r.available.insert(f.clone(), av.iter().map(|d| (dkey(root, d), d.is_third_party, d.is_plugin)).collect());
         }
     }
     if prop == "C14" {
-        let lsp = Lsp::new(db.clone(), root);
+        let mut lsp = Lsp::new(db.clone(), root);
+        lsp.venv_layout = spec.extra.iter().find(|(k, _)| k == "@venv-layout").map(|(_, v)| v.clone());
         for f in &r.cached {
             r.docsym.insert(f.clone(), lsp.document_symbols(f));
         }
@@ -421,7 +426,7 @@ fn collect(prop: &str, db: &std::sync::Arc<crate::fixtures::FixtureDatabase>, ro
             r.cycles.push((dkey(root, &c.fixture), c.cycle_path.clone()));
         }
         for f in &r.cached {
-            for m in db.detect_scope_mismatches_in_file(&root.join(f)) {
+            for m in db.detect_scope_mismatches_in_file(&root.join(spec.disk_rel(f))) {
                 r.mismatches.push((dkey(root, &m.fixture), dkey(root, &m.dependency)));
             }
         }
@@ -432,7 +437,7 @@ fn collect(prop: &str, db: &std::sync::Arc<crate::fixtures::FixtureDatabase>, ro
             if !r.cached.contains(file) {
                 continue;
             }
-            let abs = root.join(file);
+            let abs = root.join(spec.disk_rel(file));
             let inlay = lsp.inlay(file).unwrap_or_default();
             let avail: Vec<(DefK, Option<String>)> = db.get_available_fixtures(&abs).iter().map(|d| (dkey(root, d), d.return_type.clone())).collect();
             // completion at the probe test's parentheses
